@@ -284,3 +284,7 @@ import obligations.C01  # noqa: E402,F401
 from vf.registry import alias  # noqa: E402
 
 alias("C04.dml_bound_values_are_not_rewritten", "C01.bound_values_reach_the_engine_unchanged", "an INSERT with bound values (incl. text that looks like a session-variable reference while such variables are set) changes exactly the rows it names")
+
+import obligations.C16  # noqa: E402,F401
+
+alias("C04.each_script_statement_reports_its_own_count", "C16.execute_string_equals_one_by_one", "in a sequence of DML statements run as one script every statement has its own cursor, status row and rowcount")
